@@ -12,10 +12,12 @@ from ..model import ClassInfo, FuncInfo, Repo, walk_no_nested
 SELF = T.atom("self")
 
 
-def fold(repo: Repo, f: FuncInfo, concrete: ClassInfo | None = None, args: dict | None = None, **opts):
+def fold(repo: Repo, f: FuncInfo, concrete: ClassInfo | None = None, args: dict | None = None, ev=None, **opts):
     """Fold function *f* (as a method of *concrete*) into terms.
-    Returns (evaluator, return term)."""
-    ev = Evaluator(repo, **opts)
+    Returns (evaluator, return term).  Passing an existing evaluator keeps its
+    heap, so methods can be folded in sequence on one abstract object."""
+    if ev is None:
+        ev = Evaluator(repo, **opts)
     ret = ev.run(f, concrete or f.cls, args=args)
     return ev, ret
 
